@@ -298,7 +298,18 @@ bool Session::reload(char const* where)
 {
     ChkptView const before = w->view();
     std::unique_ptr<IWorld> nw = make_world(p.nt, p.eng);
+    std::size_t const nfind = rep.findings.size();
     bool const ok = durability_check(p, *nw, before, before.text, rep, where);
+    // readable but different: the run can go on with what was read (as a user's program would)
+    reload_usable = ok;
+    if (!ok && rep.findings.size() > nfind && rep.findings.back().tag != "text-not-readable") reload_usable = true;
+    if (!ok && rep.findings.size() == nfind)
+    {
+        // the finding was already recorded earlier in this run; decide by reading again
+        LoadInfo info;
+        std::unique_ptr<IWorld> probe = make_world(p.nt, p.eng);
+        reload_usable = probe->load(p, before.text, info) && !info.threw;
+    }
     w = std::move(nw);
     return ok;
 }
